@@ -40,7 +40,22 @@ func engScenarios() []engScenario {
 		{"merge of two segments", []spec.Batch{vm[0], vm[1]}, [][]int{nil, nil}, false},
 		{"merge with deletions", []spec.Batch{vm[1], vm[0], vm[2]}, [][]int{{0}, {1}, nil}, false},
 		{"merge into a clustered index (2 x 600 vectors)", []spec.Batch{latticeBatch(600, "dot_product"), latticeBatch(600, "dot_product")}, [][]int{nil, {3, 4}}, false},
+		{"merge of four segments, one without the field, one with all its vectors deleted", []spec.Batch{vm[0], vm[3], vm[2], vm[1]}, [][]int{nil, nil, {0}, {1}}, false},
+		{"merge of two segments with two vector fields each", []spec.Batch{two, two}, [][]int{nil, {1}}, false},
+		{"build (memory-efficient optimisation, 1100 vectors: IVF,SQ4)", []spec.Batch{optBatch(latticeBatch(1100, "l2_norm"), "memory-efficient")}, nil, true},
+		{"build (latency optimisation, three documents)", []spec.Batch{optBatch(enum.VecCase{Docs: []int{1, 7, 3}, Metric: "cosine"}.Batch(), "latency")}, nil, true},
 	}
+}
+
+func optBatch(b spec.Batch, opt string) spec.Batch {
+	for d := range b.Docs {
+		for f := range b.Docs[d].Fields {
+			if b.Docs[d].Fields[f].IsVector() {
+				b.Docs[d].Fields[f].Opt = opt
+			}
+		}
+	}
+	return b
 }
 
 // allVectorsRetrievable checks that every vector of the reference can be found
@@ -201,9 +216,9 @@ func init() {
 	run.Register(&run.Def{
 		ID:          "C19",
 		Level:       "fault_enumeration",
-		Rule:        "deviation enumeration of vector-engine failures (vectors tag, stand-in engine with a fault plan): for each of 5 scenarios (build with a flat index over two vector fields; build of 1200 vectors = clustered index with the train path; merge of two segments; merge of three segments with deletions; merge of 2 x 600 vectors into a clustered index) the fault-free run yields the engine call log; then one run per (operation kind, n) for EVERY n that occurred, for IndexFactory, SetDirectMap, Train, AddWithIDs, WriteIndexIntoBuffer, ReadIndexFromBuffer, ReconstructBatch. Oracle: New / Merge returns an error, or else every vector of the reference is retrievable (count statistic; exact search with k = number of vectors for flat indexes) - otherwise 'silently missing'; a failed merge leaves no file; the engine's live-object count returns to its pre-call value; no double free / use after free. Non-trivial = one (scenario, operation, n).",
+		Rule:        "deviation enumeration of vector-engine failures (vectors tag, stand-in engine with a fault plan): for each of 9 scenarios (build with a flat index over two vector fields; build of 1200 vectors = clustered index with the train path; merge of two segments; merge of three segments with deletions; merge of 2 x 600 vectors into a clustered index; merge of four segments incl. one without the field and one fully deleted; merge of two-field segments; builds with the memory-efficient and latency optimisations) the fault-free run yields the engine call log; then one run per (operation kind, n) for EVERY n that occurred, for IndexFactory, SetDirectMap, Train, AddWithIDs, WriteIndexIntoBuffer, ReadIndexFromBuffer, ReconstructBatch. Oracle: New / Merge returns an error, or else every vector of the reference is retrievable (count statistic; exact search with k = number of vectors for flat indexes) - otherwise 'silently missing'; a failed merge leaves no file; the engine's live-object count returns to its pre-call value; no double free / use after free. Non-trivial = one (scenario, operation, n).",
 		Assumptions: []string{"the vector engine is the pure-Go stand-in (DESIGN 3.4); its fault plan fails exactly the n-th call of an operation"},
-		Bounds:      map[string]string{"quick": "all engine calls of all 5 scenarios", "thorough": "same: the fault space is enumerated completely in both tiers"},
+		Bounds:      map[string]string{"quick": "all engine calls of all 9 scenarios", "thorough": "same: the fault space is enumerated completely in both tiers"},
 		New:         func() interface{} { return &EngineFaultCase{} },
 		Gen: func(tier string, emit func(interface{})) {
 			for i := range engScenarios() {
